@@ -31,6 +31,26 @@ THEOREMS = [
     "ProbLogProofs.C10.C05_hom_ring",
 ]
 
+MODULE_BRIDGE = "ProbLogProofs.Properties.C10Bridge"
+THEOREMS_BRIDGE = [
+    "ProbLogProofs.C10.C10_evalCArr_eq",
+    "ProbLogProofs.C10.C10_line2node_literal",
+    "ProbLogProofs.C10.C10_nodeWeights_eq_evalLines",
+    "ProbLogProofs.C10.C10_nodeWeights_compound",
+    "ProbLogProofs.C10.C10_rootWeight_eq_evalC",
+    "ProbLogProofs.C10.C10_rootWeight_is_wmc",
+    "ProbLogProofs.C10.C10_rootWeight_single_literal",
+    "ProbLogProofs.C10.C10_rootWeight_single_negative",
+    "ProbLogProofs.C10.C10_loadNnf_carry",
+    "ProbLogProofs.C10.C10_prepare_ok",
+    "ProbLogProofs.C10.C10_evidence_weights",
+    "ProbLogProofs.C10.C10_evaluate_is_conditional_wmc",
+    "ProbLogProofs.C10.C01_extractWeights_spec",
+    "ProbLogProofs.C10.C01_loaded_table",
+    "ProbLogProofs.C10.C01_pipeline_downstream",
+    "ProbLogProofs.C10.C01_pipeline_downstream_atoms",
+]
+
 MANIFEST = {
     "level": "translation_validation",
     "technique": "per-instance validation of dsharp's output by an executable Lean validator with a proved soundness "
@@ -39,7 +59,10 @@ MANIFEST = {
     "text": "Every d-DNNF produced in the run is validated by the Lean checker (decomposable, smooth, deterministic), "
             "shown to entail every CNF clause and to have the CNF's model count; the loaded DDNNF object (nodes, names, "
             "weights, constraints) and the evaluator's numbers are compared with the Lean model of _load_nnf / "
-            "SimpleDDNNFEvaluator. dsharp is not modelled: the claim is per compiled instance.",
+            "SimpleDDNNFEvaluator. Lean also proves, for every validated circuit, that the MODELLED loader + evaluator "
+            "return the conditional weighted model count (C10_rootWeight_is_wmc, C10_evaluate_is_conditional_wmc) and that "
+            "AD constraints/weights are carried over (C10_loadNnf_carry). dsharp is not modelled: the claim is per compiled "
+            "instance.",
     "note": "Trusted: Lean kernel + standard axioms; harness; the validator's soundness theorems are listed in the "
             "evidence obligation list (those not yet discharged are named there). Floats compared with exact rationals at 1e-9.",
     "design_ref": "DESIGN.md §4.3, §6 C10",
@@ -196,6 +219,7 @@ def run(ctx):
     ctx.rule = ("CNFs of generated programs (C01 fragment) compiled with the bundled dsharp; a case = one compiled CNF; "
                 "distinct = distinct DIMACS text; non-trivial = at least one OR line in the .nnf")
     ctx.proof_phase(MODULE, THEOREMS)
+    ctx.proof_phase(MODULE_BRIDGE, THEOREMS_BRIDGE)
     drv = ctx.driver("Drivers.Spine")
     rng = ctx.sub_rng("programs")
     nprog = ctx.budget(120, 2500)
